@@ -480,6 +480,7 @@ type Clause struct {
 	Text string
 	Line int
 	File string
+	Trusted bool // assumed at call sites, not checked against the body (reported as an assumption)
 }
 
 type LoopContract struct {
@@ -594,13 +595,17 @@ func (cs *ContractSet) ParseContractText(pkgPath, file, text string) error {
 			cs.Funcs[pk+"::"+key] = cur
 			curLoop = nil
 			pending = nil
-		case "requires", "ensures":
+		case "requires", "ensures", "trusted-ensures":
 			if cur == nil {
 				return fmt.Errorf("%s:%d: clause outside func", file, ln+1)
 			}
-			c, err := mk(base)
+			c, err := mk(strings.TrimPrefix(base, "trusted-"))
 			if err != nil {
 				return err
+			}
+			if base == "trusted-ensures" {
+				c.Trusted = true
+				cs.Assumes++
 			}
 			if base == "requires" {
 				cur.Requires = append(cur.Requires, c)
